@@ -378,3 +378,168 @@ package queue
 //@   ensures [C14:lease_voided] forall l string :: (l in s.leases ==> old(l in s.leases) && s.leases[l] == old(s.leases[l])) && (old(l in s.leases) && !(l in s.leases) ==> s.items[old(s.leases[l])].State == StateCanceled)
 //@   ensures [C14:count_equals_changes] result0.Canceled == card(setof(k string :: k in s.items && s.items[k].State != old(s.items[k].State))) && result0.Matched == result0.Canceled
 //@   ensures [C14:nothing_created_or_removed] result1 == nil
+
+//@ func (*MemoryStore).RequeueMessages
+//@   requires s != nil
+//@   modifies Envelope.State, Envelope.LeaseID, Envelope.LeaseUntil, Envelope.NextRunAt, Envelope.DeadReason, s.notify, storeNow
+//@   loop 1 ghost C set[string] := empty(string) step ite(requeued != pre(requeued) + card(C), add(C, id), C)
+//@   loop 1 ghost which gmap[string]int := _ step ite(id != "" && !(id in preseen), store(which, id, rangeindex), which)
+//@   loop 1 ghost preseen set[string] := empty(string) step dom(seen)
+//@   loop 1 invariant [wf_J3a] J3a(s)
+//@   loop 1 invariant [wf_J3b] J3b(s)
+//@   loop 1 invariant [wf_J4] J4(s)
+//@   loop 1 invariant [wf_J5] J5(s)
+//@   loop 1 invariant [wf_J6] J6(s)
+//@   loop 1 invariant [seen_shape] seen != nil && rangeindex < len(req.IDs) && (forall k string :: k in preseen <==> k in seen) && (forall k string :: k in seen ==> k != "" && 0 <= which[k] && which[k] <= rangeindex && trim(req.IDs[which[k]]) == k)
+//@   loop 1 invariant [seen_complete] forall j int :: 0 <= j && j <= rangeindex && trim(req.IDs[j]) != "" ==> trim(req.IDs[j]) in seen
+//@   loop 1 invariant [partition] forall k string :: k in s.items ==> same(s.items[k]) || (k in seen && old(requeueable(s.items[k].State)) && resetTo(s.items[k], StateQueued, now))
+//@   loop 1 invariant [seen_processed] forall k string :: k in seen && k in s.items && old(requeueable(s.items[k].State)) ==> s.items[k].State == StateQueued
+//@   loop 1 invariant [count] requeued == card(C) && (forall k string :: k in C <==> (k in s.items && s.items[k].State != old(s.items[k].State)))
+//@   ensures [C14:only_selected_from_allowed_states] forall k string :: k in s.items ==> same(s.items[k]) || (idSelected(req.IDs, k) && old(requeueable(s.items[k].State)) && resetTo(s.items[k], StateQueued, storeNow))
+//@   ensures [C14:every_selected_allowed_message_changed] forall j int :: 0 <= j && j < len(req.IDs) && trim(req.IDs[j]) != "" && trim(req.IDs[j]) in s.items && old(requeueable(s.items[trim(req.IDs[j])].State)) ==> s.items[trim(req.IDs[j])].State == StateQueued
+//@   ensures [C14:count_equals_changes] result0.Requeued == card(setof(k string :: k in s.items && s.items[k].State != old(s.items[k].State))) && result0.Matched == result0.Requeued
+//@   ensures [no_error] result1 == nil
+
+//@ func (*MemoryStore).RequeueDead
+//@   requires s != nil
+//@   modifies Envelope.State, Envelope.LeaseID, Envelope.LeaseUntil, Envelope.NextRunAt, Envelope.DeadReason, s.notify, storeNow
+//@   loop 1 ghost C set[string] := empty(string) step ite(requeued != pre(requeued) + card(C), add(C, id), C)
+//@   loop 1 ghost which gmap[string]int := _ step ite(id != "" && !(id in preseen), store(which, id, rangeindex), which)
+//@   loop 1 ghost preseen set[string] := empty(string) step dom(seen)
+//@   loop 1 invariant [wf_J3a] J3a(s)
+//@   loop 1 invariant [wf_J3b] J3b(s)
+//@   loop 1 invariant [wf_J4] J4(s)
+//@   loop 1 invariant [wf_J5] J5(s)
+//@   loop 1 invariant [wf_J6] J6(s)
+//@   loop 1 invariant [seen_shape] seen != nil && rangeindex < len(req.IDs) && (forall k string :: k in preseen <==> k in seen) && (forall k string :: k in seen ==> k != "" && 0 <= which[k] && which[k] <= rangeindex && trim(req.IDs[which[k]]) == k)
+//@   loop 1 invariant [seen_complete] forall j int :: 0 <= j && j <= rangeindex && trim(req.IDs[j]) != "" ==> trim(req.IDs[j]) in seen
+//@   loop 1 invariant [partition] forall k string :: k in s.items ==> same(s.items[k]) || (k in seen && old(s.items[k].State == StateDead) && resetTo(s.items[k], StateQueued, now))
+//@   loop 1 invariant [seen_processed] forall k string :: k in seen && k in s.items && old(s.items[k].State == StateDead) ==> s.items[k].State == StateQueued
+//@   loop 1 invariant [count] requeued == card(C) && (forall k string :: k in C <==> (k in s.items && s.items[k].State != old(s.items[k].State)))
+//@   ensures [C14:only_selected_from_allowed_states] forall k string :: k in s.items ==> same(s.items[k]) || (idSelected(req.IDs, k) && old(s.items[k].State == StateDead) && resetTo(s.items[k], StateQueued, storeNow))
+//@   ensures [C14:every_selected_allowed_message_changed] forall j int :: 0 <= j && j < len(req.IDs) && trim(req.IDs[j]) != "" && trim(req.IDs[j]) in s.items && old(s.items[trim(req.IDs[j])].State == StateDead) ==> s.items[trim(req.IDs[j])].State == StateQueued
+//@   ensures [C14:count_equals_changes] result0.Requeued == card(setof(k string :: k in s.items && s.items[k].State != old(s.items[k].State)))
+//@   ensures [no_error] result1 == nil
+
+//@ func (*MemoryStore).DeleteDead
+//@   requires s != nil
+//@   modifies s.items
+//@   loop 1 ghost C set[string] := empty(string) step ite(deleted != pre(deleted) + card(C), add(C, id), C)
+//@   loop 1 ghost which gmap[string]int := _ step ite(id != "" && !(id in preseen), store(which, id, rangeindex), which)
+//@   loop 1 ghost preseen set[string] := empty(string) step dom(seen)
+//@   loop 1 invariant [wf] wf(s)
+//@   loop 1 invariant [seen_shape] seen != nil && rangeindex < len(req.IDs) && (forall k string :: k in preseen <==> k in seen) && (forall k string :: k in seen ==> k != "" && 0 <= which[k] && which[k] <= rangeindex && trim(req.IDs[which[k]]) == k)
+//@   loop 1 invariant [seen_complete] forall j int :: 0 <= j && j <= rangeindex && trim(req.IDs[j]) != "" ==> trim(req.IDs[j]) in seen
+//@   loop 1 invariant [kept] forall k string :: k in s.items ==> old(k in s.items) && s.items[k] == old(s.items[k])
+//@   loop 1 invariant [removed] forall k string :: old(k in s.items) && !(k in s.items) ==> k in seen && old(s.items[k].State) == StateDead
+//@   loop 1 invariant [seen_processed] forall k string :: k in seen && old(k in s.items) && old(s.items[k].State) == StateDead ==> !(k in s.items)
+//@   loop 1 invariant [count] deleted == card(C) && (forall k string :: k in C <==> (old(k in s.items) && !(k in s.items)))
+//@   ensures [C14:only_selected_dead_removed] forall k string :: old(k in s.items) && !(k in s.items) ==> idSelected(req.IDs, k) && old(s.items[k].State) == StateDead
+//@   ensures [C14:survivors_untouched] forall k string :: k in s.items ==> old(k in s.items) && s.items[k] == old(s.items[k]) && same(s.items[k])
+//@   ensures [C14:every_selected_dead_removed] forall j int :: 0 <= j && j < len(req.IDs) && trim(req.IDs[j]) != "" && old(trim(req.IDs[j]) in s.items) && old(s.items[trim(req.IDs[j])].State) == StateDead ==> !(trim(req.IDs[j]) in s.items)
+//@   ensures [C14:count_equals_changes] result0.Deleted == card(setof(k string :: old(k in s.items) && !(k in s.items)))
+//@   ensures [no_error] result1 == nil
+
+// ---- C14: by-filter selection ----
+
+//@ spec
+//@ func effLimit(n int) int := ite(n <= 0, 100, ite(n > 1000, 1000, n))
+//@ pred stateAllowed(st State, allowed []State, want State) := (exists i int :: 0 <= i && i < len(allowed) && allowed[i] == st) && (want == "" || st == want)
+//@ pred filterMatches(e *Envelope, req MessageManageFilterRequest, allowed []State) := stateAllowed(e.State, allowed, req.State) && (req.Route == "" || e.Route == req.Route) && (req.Target == "" || e.Target == req.Target) && (req.Before == 0 || e.ReceivedAt < req.Before)
+
+//@ func (*MemoryStore).filterManageCandidatesLocked$1
+//@   trusted
+
+//@ func (*MemoryStore).filterManageCandidatesLocked
+//@   monitor locked
+//@   requires s != nil && wf(s)
+//@   loop 1 ghost w1 gmap[State]int := _ step store(w1, st, rangeindex)
+//@   loop 1 invariant [set_is_prefix] allowedSet != nil && rangeindex < len(allowed) && (forall x State :: x in allowedSet ==> 0 <= w1[x] && w1[x] <= rangeindex && allowed[w1[x]] == x) && (forall j int :: 0 <= j && j <= rangeindex ==> allowed[j] in allowedSet)
+//@   loop 2 ghost plen int := 0 step len(candidates)
+//@   loop 2 ghost pos gmap[string]int := _ step ite(len(candidates) != plen, store(pos, lastkey, plen), pos)
+//@   loop 2 invariant [allowed_char] forall x State :: x in allowedSet <==> stateAllowed(x, allowed, req.State)
+//@   loop 2 invariant [plen] plen == len(candidates) && fresh(candidates.arr)
+//@   loop 2 invariant [cand_ok] forall k int :: 0 <= k && k < len(candidates) ==> candidates[k] != nil && candidates[k].ID in visited && candidates[k].ID in s.items && s.items[candidates[k].ID] == candidates[k] && filterMatches(candidates[k], req, allowed) && pos[candidates[k].ID] == k
+//@   loop 2 invariant [complete] forall id string :: id in visited && id in s.items && filterMatches(s.items[id], req, allowed) ==> 0 <= pos[id] && pos[id] < len(candidates) && candidates[pos[id]] == s.items[id]
+//@   ensures [C14:candidates_match_every_criterion] forall k int :: 0 <= k && k < len(result) ==> result[k] != nil && result[k].ID in s.items && s.items[result[k].ID] == result[k] && filterMatches(result[k], req, allowed)
+//@   ensures [C14:candidates_distinct] forall j int, k int :: 0 <= j && j < k && k < len(result) ==> result[j] != result[k]
+//@   ensures [C14:limit_default_and_cap] len(result) <= effLimit(req.Limit)
+//@   ensures [C14:nothing_matching_left_below_limit] len(result) < effLimit(req.Limit) ==> forall id string :: id in s.items && filterMatches(s.items[id], req, allowed) ==> let k := perminv[pos[id]] :: 0 <= k && k < len(result) && result[k] == s.items[id]
+
+//@ spec
+//@ pred manageMatch(e *Envelope, req MessageManageFilterRequest) := (req.State == "" || e.State == req.State) && (req.Route == "" || e.Route == req.Route) && (req.Target == "" || e.Target == req.Target) && (req.Before == 0 || e.ReceivedAt < req.Before)
+
+//@ func (*MemoryStore).CancelMessagesByFilter
+//@   requires s != nil
+//@   modifies s.leases, Envelope.State, Envelope.LeaseID, Envelope.LeaseUntil, Envelope.NextRunAt, Envelope.DeadReason, s.notify, storeNow
+//@   label F after call filterManageCandidatesLocked
+//@   loop 1 ghost C set[string] := empty(string) step add(C, env.ID)
+//@   loop 1 ghost cidx gmap[string]int := _ step store(cidx, env.ID, rangeindex)
+//@   loop 1 invariant [C_index] forall id string :: id in C ==> 0 <= cidx[id] && cidx[id] <= rangeindex && items[cidx[id]].ID == id
+//@   loop 1 invariant [wf_J3a] J3a(s)
+//@   loop 1 invariant [wf_J3b] J3b(s)
+//@   loop 1 invariant [wf_J4] J4(s)
+//@   loop 1 invariant [wf_J5] J5(s)
+//@   loop 1 invariant [wf_J6] J6(s)
+//@   loop 1 invariant [cands] rangeindex < len(items) && (forall k int :: 0 <= k && k < len(items) ==> items[k] != nil && items[k].ID in s.items && s.items[items[k].ID] == items[k] && old(cancelable(items[k].State)) && old(manageMatch(items[k], req))) && (forall j int, k int :: 0 <= j && j < k && k < len(items) ==> items[j] != items[k])
+//@   loop 1 invariant [done_prefix] forall k int :: 0 <= k && k <= rangeindex ==> resetTo(items[k], StateCanceled, now) && items[k].ID in C
+//@   loop 1 invariant [rest_untouched] forall id string :: id in s.items && !(id in C) ==> same(s.items[id])
+//@   loop 1 invariant [C_members] forall id string :: id in C ==> id in s.items && s.items[id].State == StateCanceled && old(cancelable(s.items[id].State)) && old(manageMatch(s.items[id], req)) && resetTo(s.items[id], StateCanceled, now)
+//@   loop 1 invariant [count] canceled == card(C) && canceled == rangeindex + 1
+//@   loop 1 invariant [leases] (forall l string :: l in s.leases ==> old(l in s.leases) && s.leases[l] == old(s.leases[l])) && (forall l string :: old(l in s.leases) && !(l in s.leases) ==> s.items[old(s.leases[l])].State == StateCanceled)
+//@   ensures [C14:preview_changes_nothing] req.PreviewOnly ==> viewUnchanged(s) && leasesSame(s) && result0.Canceled == 0 && result0.PreviewOnly
+//@   ensures [C14:only_matching_from_allowed_states] forall id string :: id in s.items ==> same(s.items[id]) || (old(cancelable(s.items[id].State)) && old(manageMatch(s.items[id], req)) && resetTo(s.items[id], StateCanceled, storeNow))
+//@   ensures [C14:counts_equal_changes] !req.PreviewOnly ==> result0.Canceled == card(setof(id string :: id in s.items && s.items[id].State != old(s.items[id].State))) && result0.Matched == result0.Canceled
+//@   ensures [C14:matched_within_limit] result0.Matched <= effLimit(req.Limit)
+//@   ensures [no_error] result1 == nil
+
+//@ func (*MemoryStore).RequeueMessagesByFilter
+//@   requires s != nil
+//@   modifies Envelope.State, Envelope.LeaseID, Envelope.LeaseUntil, Envelope.NextRunAt, Envelope.DeadReason, s.notify, storeNow
+//@   label F after call filterManageCandidatesLocked
+//@   loop 1 ghost C set[string] := empty(string) step add(C, env.ID)
+//@   loop 1 ghost cidx gmap[string]int := _ step store(cidx, env.ID, rangeindex)
+//@   loop 1 invariant [C_index] forall id string :: id in C ==> 0 <= cidx[id] && cidx[id] <= rangeindex && items[cidx[id]].ID == id
+//@   loop 1 invariant [wf_J3a] J3a(s)
+//@   loop 1 invariant [wf_J3b] J3b(s)
+//@   loop 1 invariant [wf_J4] J4(s)
+//@   loop 1 invariant [wf_J5] J5(s)
+//@   loop 1 invariant [wf_J6] J6(s)
+//@   loop 1 invariant [cands] rangeindex < len(items) && (forall k int :: 0 <= k && k < len(items) ==> items[k] != nil && items[k].ID in s.items && s.items[items[k].ID] == items[k] && old(requeueable(items[k].State)) && old(manageMatch(items[k], req))) && (forall j int, k int :: 0 <= j && j < k && k < len(items) ==> items[j] != items[k])
+//@   loop 1 invariant [done_prefix] forall k int :: 0 <= k && k <= rangeindex ==> resetTo(items[k], StateQueued, now) && items[k].ID in C
+//@   loop 1 invariant [rest_untouched] forall id string :: id in s.items && !(id in C) ==> same(s.items[id])
+//@   loop 1 invariant [C_members] forall id string :: id in C ==> id in s.items && s.items[id].State == StateQueued && old(requeueable(s.items[id].State)) && old(manageMatch(s.items[id], req)) && resetTo(s.items[id], StateQueued, now)
+//@   loop 1 invariant [count] requeued == card(C) && requeued == rangeindex + 1
+//@   loop 1 invariant [trivial] true
+//@   ensures [C14:preview_changes_nothing] req.PreviewOnly ==> viewUnchanged(s) && leasesSame(s) && result0.Requeued == 0 && result0.PreviewOnly
+//@   ensures [C14:only_matching_from_allowed_states] forall id string :: id in s.items ==> same(s.items[id]) || (old(requeueable(s.items[id].State)) && old(manageMatch(s.items[id], req)) && resetTo(s.items[id], StateQueued, storeNow))
+//@   ensures [C14:counts_equal_changes] !req.PreviewOnly ==> result0.Requeued == card(setof(id string :: id in s.items && s.items[id].State != old(s.items[id].State))) && result0.Matched == result0.Requeued
+//@   ensures [C14:matched_within_limit] result0.Matched <= effLimit(req.Limit)
+//@   ensures [no_error] result1 == nil
+
+//@ spec
+//@ pred resumable(st State) := st == StateCanceled
+
+//@ func (*MemoryStore).ResumeMessagesByFilter
+//@   requires s != nil
+//@   modifies Envelope.State, Envelope.LeaseID, Envelope.LeaseUntil, Envelope.NextRunAt, Envelope.DeadReason, s.notify, storeNow
+//@   label F after call filterManageCandidatesLocked
+//@   loop 1 ghost C set[string] := empty(string) step add(C, env.ID)
+//@   loop 1 ghost cidx gmap[string]int := _ step store(cidx, env.ID, rangeindex)
+//@   loop 1 invariant [C_index] forall id string :: id in C ==> 0 <= cidx[id] && cidx[id] <= rangeindex && items[cidx[id]].ID == id
+//@   loop 1 invariant [wf_J3a] J3a(s)
+//@   loop 1 invariant [wf_J3b] J3b(s)
+//@   loop 1 invariant [wf_J4] J4(s)
+//@   loop 1 invariant [wf_J5] J5(s)
+//@   loop 1 invariant [wf_J6] J6(s)
+//@   loop 1 invariant [cands] rangeindex < len(items) && (forall k int :: 0 <= k && k < len(items) ==> items[k] != nil && items[k].ID in s.items && s.items[items[k].ID] == items[k] && old(resumable(items[k].State)) && old(manageMatch(items[k], req))) && (forall j int, k int :: 0 <= j && j < k && k < len(items) ==> items[j] != items[k])
+//@   loop 1 invariant [done_prefix] forall k int :: 0 <= k && k <= rangeindex ==> resetTo(items[k], StateQueued, now) && items[k].ID in C
+//@   loop 1 invariant [rest_untouched] forall id string :: id in s.items && !(id in C) ==> same(s.items[id])
+//@   loop 1 invariant [C_members] forall id string :: id in C ==> id in s.items && s.items[id].State == StateQueued && old(resumable(s.items[id].State)) && old(manageMatch(s.items[id], req)) && resetTo(s.items[id], StateQueued, now)
+//@   loop 1 invariant [count] resumed == card(C) && resumed == rangeindex + 1
+//@   loop 1 invariant [trivial] true
+//@   ensures [C14:preview_changes_nothing] req.PreviewOnly ==> viewUnchanged(s) && leasesSame(s) && result0.Resumed == 0 && result0.PreviewOnly
+//@   ensures [C14:only_matching_from_allowed_states] forall id string :: id in s.items ==> same(s.items[id]) || (old(resumable(s.items[id].State)) && old(manageMatch(s.items[id], req)) && resetTo(s.items[id], StateQueued, storeNow))
+//@   ensures [C14:counts_equal_changes] !req.PreviewOnly ==> result0.Resumed == card(setof(id string :: id in s.items && s.items[id].State != old(s.items[id].State))) && result0.Matched == result0.Resumed
+//@   ensures [C14:matched_within_limit] result0.Matched <= effLimit(req.Limit)
+//@   ensures [no_error] result1 == nil
